@@ -92,9 +92,7 @@ func (sc *synonymIndexCache) createAndCacheLOCKED(fieldID uint16, mem []byte) (*
 		pos += uint64(n)
 		termLen, n := binary.Uvarint(mem[pos : pos+binary.MaxVarintLen64])
 		pos += uint64(n)
-		if termLen == 0 {
-			return nil, nil, fmt.Errorf("term length is 0")
-		}
+		// a zero length is a valid entry: the writer emits it for the empty synonym term
 		term := mem[pos : pos+uint64(termLen)]
 		pos += uint64(termLen)
 		synTermMap[uint32(synID)] = term
